@@ -1,118 +1,183 @@
 package main
 
+func noop(p *Program, r *Reporter) {}
+
 func init() {
-	registerRule(&RuleDef{ID: "L1", Min: 100, Doc: "every mutex acquired in client/cache/server/inmemory is released or deferred on every return path", Run: ruleL1("client", "cache", "server", "database/inmemory")})
-
-	registerRule(&RuleDef{ID: "L2", Min: 50, Doc: "guarded-by", Run: ruleL2("L2", "client", "cache", "server", "database/inmemory")})
-
-	registerRule(&RuleDef{ID: "L3", Min: 10, Doc: "outermost lock", Run: ruleL3("L3", []outerSpec{{"client", "ovsdbClient", "rpcMutex"}, {"server", "OvsdbServer", "txnMutex"}})})
-	registerRule(&RuleDef{ID: "L4", Min: 4, Doc: "held across", Run: ruleL4})
-	registerRule(&RuleDef{ID: "L5", Min: 8, Doc: "S-REG", Run: ruleL5})
+	// --- E1 locks
+	registerRule(&RuleDef{ID: "L1", Min: 150, Doc: "every mutex acquired in client/cache/server/inmemory is released or deferred on every return path (acquire wrappers are summarised and checked at their call sites)", Run: ruleL1("client", "cache", "server", "database/inmemory")})
+	registerRule(&RuleDef{ID: "L2", Min: 100, Doc: "every access to a lock-guarded field happens with its lock must-held (write mode for writes), through all static callers of unexported helpers", Run: ruleL2("L2", "client", "cache", "server", "database/inmemory")})
+	registerRule(&RuleDef{ID: "L3", Min: 20, Doc: "rpcMutex / txnMutex are never acquired while a lock that is taken under them elsewhere may be held", Run: ruleL3("L3", []outerSpec{{"client", "ovsdbClient", "rpcMutex"}, {"server", "OvsdbServer", "txnMutex"}})})
+	registerRule(&RuleDef{ID: "L4", Min: 4, Doc: "OvsdbServer.Transact executes, notifies and commits under txnMutex, released only by defer, nothing asynchronous", Run: ruleL4})
+	registerRule(&RuleDef{ID: "L5", Min: 8, Doc: "monitor registration and its initial snapshot happen under txnMutex", Run: ruleL5})
+	// --- E2 aliasing
+	registerRule(&RuleDef{ID: "A1", Min: 30, Doc: "exported read APIs return only fresh copies", Run: ruleA1})
+	registerRule(&RuleDef{ID: "A1p", Min: 2, Doc: "callers of RowsShallow are frozen and clone before returning", Run: ruleA1p})
+	registerRule(&RuleDef{ID: "A2", Min: 2, Doc: "the cache stores a private copy", Run: ruleA2})
+	registerRule(&RuleDef{ID: "A3", Min: 15, Doc: "in-place difference/mutation algorithms only receive owned values", Run: ruleA3})
+	registerRule(&RuleDef{ID: "A4", Min: 5, Doc: "committed rows and reference index are written only by Commit/CreateDatabase; Commit is only called by OvsdbServer.Transact", Run: ruleA4})
+	registerRule(&RuleDef{ID: "A5", Min: 15, Doc: "no error result is dropped on the commit path", Run: ruleA5})
+	registerRule(&RuleDef{ID: "T-SCAN", Min: 2, Doc: "notify and commit are dominated by the scan of the results for an error", Run: ruleTSCAN})
+	// --- E3 codecs
+	registerRule(&RuleDef{ID: "K1", Min: 30, Doc: "keyed codec pairs agree member by member (pass also emits K2)", Run: ruleK12})
+	registerRule(&RuleDef{ID: "K2", Min: 15, Doc: "positional codec pairs agree position by position (emitted by the K1 pass)", Run: noop})
+	registerRule(&RuleDef{ID: "K3", Min: 30, Doc: "error-name tables are inverse bijections and cover every declared name", Run: ruleK3})
+	// --- E4 totality
+	registerRule(&RuleDef{ID: "P-IDX", Min: 40, Doc: "every index/slice in the decoders has a dominating length test on an equivalent operand", Run: rulePIDX})
+	registerRule(&RuleDef{ID: "P-ASSERT", Min: 15, Doc: "every single-result type assertion in the decoders is dominated by a successful comma-ok assertion", Run: rulePASSERT})
+	registerRule(&RuleDef{ID: "P-NIL", Min: 5, Doc: "optional pointer members are nil-tested before use in the decoders", Run: rulePNILdec})
+	registerRule(&RuleDef{ID: "P-HASH", Min: 2, Doc: "interface-typed map keys in the decoders have a comparable dynamic type on every path", Run: rulePHASH})
+	registerRule(&RuleDef{ID: "P-NIL-TXN", Min: 3, Doc: "optional members of a client-supplied Operation are nil-tested before use", Run: rulePNILtxn})
+	registerRule(&RuleDef{ID: "P-NIL-MON", Min: 4, Doc: "a monitor request without select / without an entry for a table is tolerated", Run: rulePNILmon})
+	registerRule(&RuleDef{ID: "P-DIV", Min: 4, Doc: "integer division/modulo has a non-zero divisor (local test or ValidateMutation gate pair)", Run: rulePDIV})
+	// --- E5 wiring
+	registerRule(&RuleDef{ID: "W1", Min: 18, Doc: "per monitor RPC: notification method, arity and payload agree between server sender, client handler and the RFC (pass also emits W2, W3)", Run: ruleW})
+	registerRule(&RuleDef{ID: "W2", Min: 6, Doc: "three monitor kinds, each with a processMonitors case (emitted by W1)", Run: noop})
+	registerRule(&RuleDef{ID: "W3", Min: 6, Doc: "every notification method has a client handler decoding the right payload (emitted by W1)", Run: noop})
+	registerRule(&RuleDef{ID: "W4", Min: 5, Doc: "notifications are delivered synchronously and handled in the client's read loop", Run: ruleW4Standalone})
+	// --- E6 exhaustiveness and friends
+	registerRule(&RuleDef{ID: "E6", Min: 120, Doc: "every constant of a group is handled at each sibling site", Run: ruleE6})
+	registerRule(&RuleDef{ID: "T-WIRE", Min: 7, Doc: "boolean mode arguments are wired to the required constant", Run: ruleTWIRE})
+	registerRule(&RuleDef{ID: "T-GUARD", Min: 5, Doc: "must-pass-through guards (Mutable, Go type, assignability)", Run: ruleTGUARD})
+	registerRule(&RuleDef{ID: "T-REFPOS", Min: 6, Doc: "every carrier / position of a reference is inspected", Run: ruleTREFPOS})
+	registerRule(&RuleDef{ID: "Q-PRE", Min: 3, Doc: "index lookups only pre-filter; rows are returned after every condition was evaluated", Run: ruleQPRE})
+	registerRule(&RuleDef{ID: "F-PAIR", Min: 6, Doc: "monitor filter pairs each kind of change with the select flag of the same name", Run: ruleFPAIR})
+	registerRule(&RuleDef{ID: "PM-ONCE", Min: 2, Doc: "one notification round per transaction, covering every monitor", Run: rulePMONCE})
+	registerRule(&RuleDef{ID: "DEFER-APPEND", Min: 5, Doc: "buffered notifications are appended and replayed in arrival order", Run: ruleDEFERAPPEND})
+	registerRule(&RuleDef{ID: "D-ORDER", Min: 2, Doc: "generator output does not depend on map iteration order", Run: ruleDORDER})
+	registerRule(&RuleDef{ID: "G-COPY", Min: 10, Doc: "DeepCopyInto re-assigns every reference field, Equals compares every field", Run: ruleGCOPY})
+	registerRule(&RuleDef{ID: "GEN-ATOM", Min: 5, Doc: "generator type names agree with the mapper's native types (pass also emits GEN-SHAPE)", Run: ruleGEN})
+	registerRule(&RuleDef{ID: "GEN-SHAPE", Min: 1, Doc: "generator and mapper decide pointer/scalar/slice on the same (min,max) tests (emitted by GEN-ATOM)", Run: noop})
+	// --- E7 reconnect
+	registerRule(&RuleDef{ID: "E7", Min: 5, Doc: "no Purge after a Populate of the same cache within one reconnect; every monitor restarted (pass also emits R-DEFER, R-ONCE)", Run: ruleE7})
+	registerRule(&RuleDef{ID: "R-DEFER", Min: 1, Doc: "deferral re-armed before every reconnect attempt (emitted by E7)", Run: noop})
+	registerRule(&RuleDef{ID: "R-ONCE", Min: 2, Doc: "the transact RPC is sent once per Transact (emitted by E7)", Run: noop})
+	// --- E8 index
+	registerRule(&RuleDef{ID: "X1", Min: 2, Doc: "an index entry is only removed after looking at who owns it", Run: ruleX1})
+	registerRule(&RuleDef{ID: "X2", Min: 8, Doc: "only Create/Update/Delete write the row and index maps", Run: ruleX2})
+	registerRule(&RuleDef{ID: "X3", Min: 6, Doc: "each maintenance operation covers every index and writes the row last", Run: ruleX3})
+	registerRule(&RuleDef{ID: "X4", Min: 4, Doc: "commit-time checks in order, errors tested, before the success return", Run: ruleX4})
+	// --- E9 events
+	registerRule(&RuleDef{ID: "V1", Min: 3, Doc: "exactly one matching event after each successful cache mutation (pass also emits V2, V3)", Run: ruleV})
+	registerRule(&RuleDef{ID: "V2", Min: 7, Doc: "event fields reach the right callback arguments (emitted by V1)", Run: noop})
+	registerRule(&RuleDef{ID: "V3", Min: 5, Doc: "one producer, one consumer, drop only on overflow, handlers under one lock (emitted by V1)", Run: noop})
+	// --- named uuids
+	registerRule(&RuleDef{ID: "N-COVER", Min: 4, Doc: "every value-carrying member of Operation is expanded and stored back (pass also emits N-PHASE, N-POS, G-GATE)", Run: ruleN})
+	registerRule(&RuleDef{ID: "N-PHASE", Min: 4, Doc: "the name map is complete before the first substitution (emitted by N-COVER)", Run: noop})
+	registerRule(&RuleDef{ID: "N-POS", Min: 5, Doc: "expanding a position depends only on that position's type (emitted by N-COVER)", Run: noop})
+	registerRule(&RuleDef{ID: "G-GATE", Min: 6, Doc: "a checked ExpandNamedUUIDs dominates every operation dispatch (emitted by N-COVER)", Run: noop})
 
 	registerProp(&PropDef{
-		ID:    "C18",
-		Rules: []string{"L1", "L2", "L3", "L4", "L5"},
-		Explanation: "Decides the structural clause of C18: lock pairing on every return path (L1).",
-		NotCovered: "data races on fields ordered by WaitGroup/channels, torn reads, channel-send liveness, general deadlock freedom",
+		ID:    "C01",
+		Rules: []string{"W1", "W2", "W3", "W4", "L2", "L5", "DEFER-APPEND", "PM-ONCE"},
+		Explanation: "Decides the plumbing every history of C01 relies on, not the equality of cache and database contents: (W1-W3) for each of monitor / monitor_cond / monitor_cond_since the built-in server's notification is sent under the method name, arity and payload type that the client's registered handler decodes and that RFC 7047 / ovsdb-server(7) prescribe, and the monitor reply type matches on both sides; (W4) notifications are sent with a blocking rpc2 Call from inside Transact with no goroutine, and the client runs its handlers in the read loop (SetBlocking(true) before Run), so a client's own transaction is in its cache before Transact returns; (L2, DEFER-APPEND) deferUpdates/deferredUpdates are only touched under cacheMutex, appended at the tail and replayed front to back, which closes the 'notification before initial contents' window; (L5) a monitor is registered and snapshotted under txnMutex, so no transaction falls between snapshot and first notification; (PM-ONCE) one notification round per transaction over every monitor.",
+		NotCovered: "equality of cache and database contents over histories, column values, garbage-collected rows: value-level, not decidable by inspection of code shape",
 	})
-
-	registerRule(&RuleDef{ID: "P-IDX", Min: 10, Doc: "index in range in decoders", Run: rulePIDX})
-	registerRule(&RuleDef{ID: "P-ASSERT", Min: 10, Doc: "checked type assertions in decoders", Run: rulePASSERT})
-	registerRule(&RuleDef{ID: "P-NIL", Min: 3, Doc: "optional pointers in decoders", Run: rulePNILdec})
-	registerRule(&RuleDef{ID: "P-NIL-TXN", Min: 3, Doc: "optional operation members", Run: rulePNILtxn})
-	registerRule(&RuleDef{ID: "P-HASH", Min: 2, Doc: "hashable interface map keys in decoders", Run: rulePHASH})
-	registerRule(&RuleDef{ID: "P-DIV", Min: 4, Doc: "integer division", Run: rulePDIV})
 	registerProp(&PropDef{
-		ID:    "C19",
-		Rules: []string{"P-IDX", "P-ASSERT", "P-NIL", "P-HASH", "P-NIL-TXN", "P-DIV"},
-		Explanation: "Decides totality obligations of C19 on input-reachable code.",
-		NotCovered: "unchecked assertions in the transaction path that rely on upstream type validation; resource exhaustion",
+		ID:    "C02",
+		Rules: []string{"A4", "A1", "T-SCAN", "A5", "L4", "X4"},
+		Explanation: "Decides that no path lets a failed transaction touch committed state or reach a monitor: (A4) the committed rows and the reference index are written only in inMemoryDatabase.Commit/CreateDatabase and Commit is called only from OvsdbServer.Transact; (A1) the Database read API (List, Get, GetReferences) hands out no alias of committed storage, so executing a transaction cannot modify the database before commit; (T-SCAN) processMonitors and Commit are dominated by the loop that returns on the first result with a non-empty Error; (A5) no error result is discarded on the commit path; (X4) reference processing and the index check precede the success return with their errors tested; (L4) all of it under txnMutex.",
+		NotCovered: "shape of the reply array; atomicity of Commit itself if ApplyCacheUpdate failed midway (value dependent)",
 	})
-
-	registerRule(&RuleDef{ID: "K1", Min: 15, Doc: "keyed/positional codec pairs agree slot by slot", Run: ruleK12})
-	registerRule(&RuleDef{ID: "K2", Min: 10, Doc: "positional codec pairs (emitted by the K1 pass)", Run: func(p *Program, r *Reporter) {}})
-	registerRule(&RuleDef{ID: "K3", Min: 20, Doc: "error tables are inverse bijections", Run: ruleK3})
-	registerProp(&PropDef{
-		ID:    "C12",
-		Rules: []string{"K1", "K2", "K3"},
-		Explanation: "Decides codec agreement for C12.",
-		NotCovered: "struct-tag driven encoding by encoding/json itself; OvsSet/OvsMap element handling; numeric fidelity",
-	})
-
-	registerRule(&RuleDef{ID: "E6", Min: 100, Doc: "every constant of a group is handled at each sibling site", Run: ruleE6})
 	registerProp(&PropDef{
 		ID:    "C03",
-		Rules: []string{"E6"},
-		Explanation: "Exhaustiveness of operation/mutator/condition tables.",
-		NotCovered: "what each handler computes",
+		Rules: []string{"E6", "T-GUARD", "P-DIV", "N-COVER", "N-PHASE", "N-POS", "G-GATE"},
+		Explanation: "Decides a narrow structural clause of C03: every operation, mutator, condition function and wait condition constant has an explicit handler in every sibling table (Transact dispatch, ValidateOperations, AddOperation, Mutation/Condition decoders, mutate, ValidateMutation, Evaluate, ValidateCondition, Wait) (E6); the immutability test precedes every column write on the update/mutate paths (T-GUARD); mutation validation precedes mutate and rejects a zero divisor (P-DIV / G-VALIDATE); table/column validation precedes every dispatch (G-GATE).",
+		NotCovered: "what each handler computes (arithmetic, set/map semantics, read-your-writes overlay): needs the executable reference model the property names, which is another technique family",
 	})
-
-	registerRule(&RuleDef{ID: "P-NIL-MON", Min: 4, Doc: "monitor request optional members", Run: rulePNILmon})
-	registerRule(&RuleDef{ID: "W1", Min: 15, Doc: "notification method/arity/payload agree between server sender, client handler and spec", Run: ruleW})
-	for _, id := range []string{"W2", "W3", "W4"} {
-		registerRule(&RuleDef{ID: id, Min: 3, Doc: "emitted by the W1 pass", Run: func(p *Program, r *Reporter) {}})
-	}
 	registerProp(&PropDef{
-		ID:    "C07",
-		Rules: []string{"W1", "W2", "W3", "W4", "P-NIL-MON"},
-		Explanation: "wiring",
-		NotCovered: "values",
+		ID:    "C04",
+		Rules: []string{"A4", "A1", "A3", "T-REFPOS", "X4"},
+		Explanation: "Decides that the reference index can only change at commit and cannot be corrupted through an alias, and that every reference-holding position is inspected: (A4) who may write the committed index; (A1) GetReferences returns copies; (A3) the in-place difference algorithms applied by the reference tracker only receive owned values and its private index is only filled from GetReferences copies; (T-REFPOS) getReferenceModificationsFromColumn has an arm for UUID, OvsSet and OvsMap and the map extractor builds key and value specs, each tested for UUIDs; (X4) ProcessReferences runs, with its error tested, before a transaction can succeed.",
+		NotCovered: "the garbage-collection fixpoint, weak-reference pruning, min-cardinality decisions: graph/value reasoning",
 	})
-
-	registerRule(&RuleDef{ID: "A1", Min: 20, Doc: "fresh-out", Run: ruleA1})
-	registerRule(&RuleDef{ID: "A1p", Min: 2, Doc: "RowsShallow callers", Run: ruleA1p})
-	registerRule(&RuleDef{ID: "A2", Min: 2, Doc: "fresh-in", Run: ruleA2})
-	registerRule(&RuleDef{ID: "A3", Min: 5, Doc: "owned in-place args", Run: ruleA3})
-	registerRule(&RuleDef{ID: "A4", Min: 4, Doc: "who may write committed state", Run: ruleA4})
-	registerRule(&RuleDef{ID: "A5", Min: 10, Doc: "no dropped error on commit path", Run: ruleA5})
-	registerRule(&RuleDef{ID: "T-SCAN", Min: 2, Doc: "error scan before notify/commit", Run: ruleTSCAN})
-	registerProp(&PropDef{
-		ID:    "C13",
-		Rules: []string{"A1", "A1p", "A2", "A3", "A4", "A5", "T-SCAN"},
-		Explanation: "aliasing",
-		NotCovered: "values",
-	})
-
-	registerRule(&RuleDef{ID: "X1", Min: 2, Doc: "owner-checked index removal", Run: ruleX1})
-	registerRule(&RuleDef{ID: "X2", Min: 6, Doc: "who may write rows/indexes", Run: ruleX2})
-	registerRule(&RuleDef{ID: "X3", Min: 6, Doc: "index coverage", Run: ruleX3})
-	registerRule(&RuleDef{ID: "X4", Min: 4, Doc: "commit-time check placement", Run: ruleX4})
-	registerRule(&RuleDef{ID: "T-WIRE", Min: 7, Doc: "constant mode wiring", Run: ruleTWIRE})
 	registerProp(&PropDef{
 		ID:    "C05",
-		Rules: []string{"X1", "X2", "X3", "X4", "T-WIRE"},
-		Explanation: "index",
-		NotCovered: "values",
+		Rules: []string{"X1", "X2", "X3", "L2", "T-WIRE"},
+		Explanation: "Decides the index write discipline of cache.RowCache: (X1) an index entry is only deleted on paths that looked at the current owner set of that entry, so a value handed over between two rows of one batch survives in whatever order the batch is applied; (X2) only Create/Update/Delete and construction write RowCache.cache and RowCache.indexes; (X3) each of the three operations maintains every index in a loop over indexSpecs and writes the row map last; (L2) both maps are only touched under RowCache.mutex.",
+		NotCovered: "correctness of valueFromIndex hashing and of the lookup functions",
 	})
-
-	registerRule(&RuleDef{ID: "E7", Min: 3, Doc: "purge/populate typestate during reconnect", Run: ruleE7})
-	registerRule(&RuleDef{ID: "R-DEFER", Min: 1, Doc: "emitted by E7", Run: func(p *Program, r *Reporter) {}})
-	registerRule(&RuleDef{ID: "R-ONCE", Min: 2, Doc: "emitted by E7", Run: func(p *Program, r *Reporter) {}})
 	registerProp(&PropDef{
-		ID:    "C16",
-		Rules: []string{"E7", "R-DEFER", "R-ONCE"},
-		Explanation: "reconnect",
-		NotCovered: "values",
+		ID:    "C06",
+		Rules: []string{"X4", "T-WIRE", "X1", "A5"},
+		Explanation: "Decides placement of the unique-index check: (X4) in Transaction.Transact every path to the success return passes, in order, ProcessReferences, applyReferenceUpdates and checkIndexes with each error tested, and operations are applied to the transaction cache only before it; (T-WIRE) per-operation application and cache warming pass checkIndexes=false (transient duplicates pass) while the preload passes true; (X1) the index state the check consults cannot lose entries on hand-over; (A5) no error dropped on that path.",
+		NotCovered: "the duplicate decision itself (IndexExists, deleted/rewritten row exemptions)",
 	})
-
-	registerRule(&RuleDef{ID: "V1", Min: 3, Doc: "one matching event per successful cache mutation", Run: ruleV})
-	registerRule(&RuleDef{ID: "V2", Min: 7, Doc: "emitted by V1", Run: func(p *Program, r *Reporter) {}})
-	registerRule(&RuleDef{ID: "V3", Min: 4, Doc: "emitted by V1", Run: func(p *Program, r *Reporter) {}})
+	registerProp(&PropDef{
+		ID:    "C07",
+		Rules: []string{"W1", "W2", "W3", "W4", "PM-ONCE", "L4", "F-PAIR", "P-NIL-MON", "T-SCAN"},
+		Explanation: "Decides that both notification encodings reach a handler that can decode them (W1-W3), that exactly one notification round is made per committed transaction, synchronously, under the transaction lock and after the error scan (PM-ONCE, W4, L4, T-SCAN), that the monitor filter pairs each kind of change with the select flag of the same name (F-PAIR), and that a request without select / without an entry for a table cannot crash the notification path (P-NIL-MON).",
+		NotCovered: "pre-state + notification = post-state; column projection values; 'nothing for a no-op transaction'",
+	})
+	registerProp(&PropDef{
+		ID:    "C08",
+		Rules: []string{"E6", "Q-PRE", "T-WIRE", "A1", "A1p"},
+		Explanation: "Decides a narrow clause of C08: all eight condition functions are accepted by the decoder, handled by Evaluate and classified by ValidateCondition for every column type including enums (E6); index lookups are a pre-filter only — rows enter the result after the loop that evaluates every condition (Q-PRE); WhereAll/WhereAny are wired to matchAll=true/false (T-WIRE); results are copies (A1).",
+		NotCovered: "the truth table of each function on atoms, sets and maps",
+	})
+	registerProp(&PropDef{
+		ID:    "C09",
+		Rules: []string{"E6", "T-GUARD", "GEN-ATOM", "GEN-SHAPE"},
+		Explanation: "Decides a narrow clause of C09: the conversion tables (NativeType, OvsToNative, NativeToOvs, default-value test, atomic tables) handle every column type (E6); the Go-type test dominates every conversion in NativeToOvs/NativeToOvsAtomic and SetField's assignability test dominates the reflective store, i.e. a mismatching Go type is rejected, not converted (T-GUARD).",
+		NotCovered: "round-trip equality through JSON for all values",
+	})
+	registerProp(&PropDef{
+		ID:    "C10",
+		Rules: []string{"A3"},
+		Explanation: "Decides only the clause 'neither computing nor applying a difference alters the model it was computed from': every call of the in-place algorithms (difference, applyDifference, mergeDifference, setDifference, mergeMapDifference, mutate*) receives as its rewritten argument a field of a model cloned in the same function (or at every static caller), a local accumulator, or the result of a previous step (A3).",
+		NotCovered: "apply(a, diff(a,b)) = b and emptiness iff equal: value-level",
+	})
+	registerProp(&PropDef{
+		ID:    "C12",
+		Rules: []string{"K1", "K2", "K3", "E6"},
+		Explanation: "Decides codec agreement for every hand-written MarshalJSON/UnmarshalJSON pair of package ovsdb: both halves are reduced to a map wire member (or array position) -> receiver fields by a taint propagation over the typed AST; no member is dropped, duplicated or cross-wired between encoder and decoder (K1 keyed: BaseType, ColumnType, ColumnSchema, MonitorSelect; K2 positional: Condition, Mutation, MonitorCondSinceReply, UUID); the error-name tables of errorFromResult and ResultFromError are inverse bijections over all declared names (K3); the decoders of Condition and Mutation accept exactly the declared functions/mutators (E6).",
+		NotCovered: "struct-tag driven encoding done by encoding/json itself (trusted), OvsSet/OvsMap element conversion, numeric fidelity",
+	})
+	registerProp(&PropDef{
+		ID:    "C13",
+		Rules: []string{"A1", "A1p", "A2", "A3", "G-COPY", "V1"},
+		Explanation: "Decides which API can hand out, or keep, a mutable reference to cached storage: (A1) every exported method of cache/client/database/inmemory whose result carries models or reference lists returns only values whose provenance is a fresh copy (model.Clone/CreateModel/NewModel, or containers built from them); (A1') RowsShallow, the documented exception, has frozen callers that clone before returning; (A2) every store into RowCache.cache stores a clone, so the caller's model and the cached row never share memory; (G-COPY) each DeepCopyInto re-assigns every reference field from a copy and each Equals compares every field; (V1) event handlers receive the update's models, never the cached ones.",
+		NotCovered: "Clone's JSON fallback fidelity; reflexivity/symmetry of Equal; the generator template text",
+	})
 	registerProp(&PropDef{
 		ID:    "C14",
-		Rules: []string{"V1", "V2", "V3"},
-		Explanation: "events",
-		NotCovered: "values",
+		Rules: []string{"V1", "V2", "V3", "W4"},
+		Explanation: "Decides the event pairing: (V1) in ApplyCacheUpdate each successful Create/Update/Delete is followed on its err == nil continuation by exactly one AddEvent with the matching event type and (nil,new)/(old,new)/(old,nil), and no event is reachable on the error edge; (V2) AddEvent stores its parameters into the event and Run passes event.new/old to OnAdd/OnUpdate/OnDelete under the matching case; (V3) one producer with a non-blocking send (drop only on overflow), one consumer, all handlers called in one loop under handlersMutex; (W4) single-writer ordering of notifications.",
+		NotCovered: "reconstruction of contents from the stream; the overflow bound",
 	})
-
-	registerRule(&RuleDef{ID: "N-COVER", Min: 4, Doc: "every value-carrying member of Operation is expanded", Run: ruleN})
-	registerRule(&RuleDef{ID: "N-PHASE", Min: 1, Doc: "emitted by N-COVER", Run: func(p *Program, r *Reporter) {}})
-	registerRule(&RuleDef{ID: "N-POS", Min: 4, Doc: "emitted by N-COVER", Run: func(p *Program, r *Reporter) {}})
-	registerRule(&RuleDef{ID: "G-GATE", Min: 6, Doc: "emitted by N-COVER", Run: func(p *Program, r *Reporter) {}})
 	registerProp(&PropDef{
 		ID:    "C15",
 		Rules: []string{"N-COVER", "N-PHASE", "N-POS", "G-GATE"},
-		Explanation: "named uuids",
-		NotCovered: "values",
+		Explanation: "Decides the structure of named-UUID expansion: (N-COVER) every member of ovsdb.Operation whose type can carry a value (found by type: Row, Rows, Mutations, Where) is passed through the expansion and stored back; (N-PHASE) no write of the name map can follow a substitution, so forward references resolve; (N-POS) whether a position (atom, set element, map key, map value) is expanded depends only on that position's own type; (G-GATE) a checked ExpandNamedUUIDs dominates every operation dispatch.",
+		NotCovered: "type-directed substitution inside values (names colliding with string data), duplicate-name rejection values",
+	})
+	registerProp(&PropDef{
+		ID:    "C16",
+		Rules: []string{"E7", "R-DEFER", "R-ONCE", "DEFER-APPEND", "L2"},
+		Explanation: "Decides the resynchronisation structure: (E7) a typestate analysis over connect(reconnect) and its callees shows no cache Purge is reachable after a Populate of the same cache within one reconnect (the only path refinement: a guard that is false when len(monitors) >= 2), the restart loop ranges over db.monitors, calls monitor(reconnecting=true) on every iteration and a failure resets the connection; (R-DEFER) every reconnect attempt first sets deferUpdates and clears deferredUpdates; (R-ONCE) the transact RPC is sent once per Transact; (DEFER-APPEND, L2) buffered notifications are kept in order under cacheMutex.",
+		NotCovered: "fault positions, backoff, leader election, exactly-once on the server side",
+	})
+	registerProp(&PropDef{
+		ID:    "C17",
+		Rules: []string{"L4", "A4", "L3", "L2", "L5", "L1", "PM-ONCE"},
+		Explanation: "Decides the serialisation structure: (L4) execute + notify + commit happen under txnMutex, released only by defer, nothing asynchronous; (A4) no other writer of committed state exists; (L5) monitor snapshot and registration are under txnMutex, so 'the order in which every monitor is notified' includes monitors that appear mid-history; (L3') txnMutex is outermost; (L1, L2) server/in-memory locks are paired and guard their fields.",
+		NotCovered: "serialisability of results over schedules: schedule/value-level",
+	})
+	registerProp(&PropDef{
+		ID:    "C18",
+		Rules: []string{"L1", "L2", "L3"},
+		Explanation: "Decides structural necessary conditions of C18 over every function of client, cache, server and inmemory: (L1) every mutex acquired is released or deferred on every return path — acquire wrappers (waitForCacheConsistent) are summarised and their callers must release; (L2) every access to a lock-guarded field (rpcClient, connected, endpoints, monitors, deferUpdates, deferredUpdates, RowCache.cache/indexes, TableCache.cache, handlers, server monitors/models/ready) happens with its lock must-held, in write mode for writes, through all static callers of unexported helpers; (L3') rpcMutex is never acquired while holding a lock that is taken under it elsewhere (ABBA with reconnect).",
+		NotCovered: "data races on fields ordered by WaitGroup/channels, torn reads, channel-send liveness, general deadlock freedom",
+	})
+	registerProp(&PropDef{
+		ID:    "C19",
+		Rules: []string{"P-IDX", "P-ASSERT", "P-NIL", "P-HASH", "P-NIL-TXN", "P-NIL-MON", "P-DIV", "G-GATE", "N-COVER"},
+		Explanation: "Decides totality obligations on the code that consumes untrusted input, for every site: in every UnmarshalJSON of package ovsdb and the functions they reach, each slice/string index needs a dominating length test on an equivalent operand (P-IDX), each single-result type assertion a dominating successful comma-ok assertion / type-switch arm (P-ASSERT), each optional pointer member a dominating nil test (P-NIL), each interface-typed map key a comparable dynamic type on every path (P-HASH); on the transaction path every optional member of an Operation is nil-tested (P-NIL-TXN), every integer / and % has a non-zero divisor locally or through the ValidateMutation gate pair (P-DIV), unknown tables/columns are rejected before dispatch (G-GATE), and the notification path tolerates absent select/request (P-NIL-MON).",
+		NotCovered: "unchecked assertions in the transaction path that rely on upstream schema validation, 'cannot happen' panics on schema errors, resource exhaustion",
+	})
+	registerProp(&PropDef{
+		ID:    "C20",
+		Rules: []string{"GEN-ATOM", "GEN-SHAPE", "E6", "D-ORDER", "G-COPY"},
+		Explanation: "Decides the parts of C20 that are Go code: (GEN-ATOM) the Go type name the generator emits for each atomic type equals the type the mapper expects (resolved through the reflect.TypeOf initialisers of NativeTypeFromAtomic); (GEN-SHAPE) generator and mapper decide pointer / scalar / slice on the same (min,max) tests; (E6) fieldType and AtomicType handle every column type; (D-ORDER) in package modelgen every range over a map only collects keys that are sorted before use, so output is identical from run to run; (G-COPY) the checked-in generated model's DeepCopyInto/Equals cover every field.",
+		NotCovered: "that generated code compiles, naming/initialism handling, everything inside the text/template source (a string, not Go syntax)",
 	})
 }
